@@ -380,10 +380,13 @@ example : spAll.all Sp.ok = true ∧ isPK (String.ofList (spAll.map Sp.char)) = 
 private def docEsc : Text := "{\"servers\":[{\"tls_context\":{\"status\":true,\"\\u0070rivate\\u005fkey\":\"KEY\"}}]}".toList
 private def docPlain : Text := "{\"servers\":[{\"tls_context\":{\"status\":true,\"Private_Key\":\"KEY\"}}]}".toList
 
-/-- on the regenerated program both spellings are redacted, and the output decodes clean -/
+/-- on the regenerated program both spellings are redacted, and the output decodes clean (stated through
+`raw_refines_walk`, so that the evaluation does not depend on the regenerated list) -/
 example : (parseDoc (redactedRaw rawProg noUnk encR docEsc)).map (cleanJ false) = some true ∧
     (parseDoc (redactedRaw rawProg noUnk encR docPlain)).map (cleanJ false) = some true ∧
-    redactedRaw rawProg noUnk encR docEsc ≠ docEsc := by decide +kernel
+    redactedRaw rawProg noUnk encR docEsc ≠ docEsc := by
+  simp only [raw_refines_walk]
+  decide +kernel
 
 /-- **witness for the byte-test fast path**: with the extra guard `!bytes.Contains(bytes.ToLower(raw), "private_key")`
 in front of the decode, the check over the regenerated structure fails, the plain and case-variant spelling is still
